@@ -109,9 +109,69 @@ pub fn cmd_record(args: &HashMap<String, String>) -> i32 {
     let mut ncrash = 0usize;
     let mut nrestart = 0usize;
     let mut i = 0usize;
+    let cursor_pct: u32 = args.get("cursor").map(|s| s.parse().unwrap()).unwrap_or(0);
+    let btree_cols: Vec<usize> = (0..u.cols.len()).filter(|c| u.cols[*c].is_btree()).collect();
+    // an open iterator borrows the handle; always dropped before the handle
+    let mut iter: Option<(usize, parity_db::BTreeIterator<'static>)> = None;
     while i < steps && problems.is_empty() {
         i += 1;
+        // cursor activity (btree columns): open / seek / step in both directions, interleaved
+        // with everything else while the iterator stays open
+        if cursor_pct > 0 && !btree_cols.is_empty() && rng.gen::<u32>() % 100 < cursor_pct {
+            let d = db.as_ref().unwrap();
+            let res: Result<(), String> = (|| {
+                if iter.is_none() {
+                    let c = btree_cols[rng.gen::<usize>() % btree_cols.len()];
+                    let it = catch(|| d.iter(c as u8)).map_err(|p| format!("panic in iter: {p}"))?.map_err(|e| format!("iter: {e}"))?;
+                    // SAFETY: cleared before the handle is dropped (see below)
+                    let it: parity_db::BTreeIterator<'static> = unsafe { std::mem::transmute(it) };
+                    iter = Some((c, it));
+                    rec.push(json!({"e": "CurOpen", "c": c + 1}));
+                    return Ok(())
+                }
+                let (c, it) = iter.as_mut().unwrap();
+                let c = *c;
+                let x = rng.gen::<u32>() % 100;
+                if x < 12 {
+                    let k = 1 + rng.gen::<usize>() % u.nkeys;
+                    let key = u.key(c, k).clone();
+                    catch(|| it.seek(&key)).map_err(|p| format!("panic in seek: {p}"))?.map_err(|e| format!("seek: {e}"))?;
+                    rec.push(json!({"e": "CurSeek", "k": k}));
+                } else if x < 17 {
+                    catch(|| it.seek_to_first()).map_err(|p| format!("panic in seek: {p}"))?.map_err(|e| format!("seek: {e}"))?;
+                    rec.push(json!({"e": "CurFirst"}));
+                } else if x < 22 {
+                    catch(|| it.seek_to_last()).map_err(|p| format!("panic in seek: {p}"))?.map_err(|e| format!("seek: {e}"))?;
+                    rec.push(json!({"e": "CurLast"}));
+                } else if x < 26 {
+                    iter = None;
+                    rec.push(json!({"e": "CurClose"}));
+                } else {
+                    let fwd = x < 63;
+                    let got = if fwd { catch(|| it.next()) } else { catch(|| it.prev()) };
+                    let got = got.map_err(|p| format!("panic in iterator step: {p}"))?.map_err(|e| format!("iterator step: {e}"))?;
+                    let res: Vec<i64> = match &got {
+                        None => vec![],
+                        Some((k, v)) => {
+                            let rank = u.key_rank(c, k);
+                            vec![rank as i64, if rank == 0 { -1 } else { u.val_id(c, rank, v) }]
+                        },
+                    };
+                    rec.push(json!({"e": if fwd { "CurNext" } else { "CurPrev" }, "res": res}));
+                }
+                Ok(())
+            })();
+            if let Err(e) = res {
+                problems.push(e);
+            }
+            continue
+        }
         let r = rng.gen::<u32>() % 100;
+        if r >= 90 && iter.is_some() {
+            // restart or crash: the iterator goes first
+            iter = None;
+            rec.push(json!({"e": "CurClose"}));
+        }
         let res: Result<(), String> = (|| {
             let d = db.as_ref().unwrap();
             if r < 35 {
@@ -209,6 +269,11 @@ pub fn cmd_record(args: &HashMap<String, String>) -> i32 {
             }
         }
     }
+    if iter.is_some() {
+        iter = None;
+        rec.push(json!({"e": "CurClose"}));
+    }
+    drop(iter);
     // final clean close + reopen
     if problems.is_empty() {
         let old = db.take();
